@@ -59,6 +59,15 @@ check("C15", "exploration",
       "argument types outside the documented ones, names containing '/' or NUL and id lengths other than 20/32 are outside the statement and not generated; dev-profile build of the crates",
       "DESIGN.md §5 C15")
 
+check("C16", "exploration",
+      "online reference-model monitor over generated ref-operation sequences on the real files/dict/reftable containers with C git listing the same directory; exhaustive ref-name sweep against a transcription of git's check_refname_format confirmed by the real binary",
+      "After every one of 25 operations per sequence (set/add/delete conditional and unconditional, symrefs, pack_refs, re-open; 9 names incl. "
+      "a directory/file pair, symref chains, HEAD) return value, exception class and the full observable state of the real container are "
+      "compared with a map model; git for-each-ref/symbolic-ref list the files backend every few steps. check_ref_format is compared on ALL "
+      "byte strings of length <=4 (thorough 5) over a 20-symbol alphabet. Decides the property on the sequences generated.",
+      "sequential map model of the documented contract; git 2.39.5; reftable vs git not compared (no reftable in git 2.39); NamespacedRefsContainer, peeled values and locked_ref not yet driven",
+      "DESIGN.md §5 C16")
+
 ALL = ["C%02d" % i for i in range(1, 21)]
 
 
